@@ -48,7 +48,7 @@ CLAIMED = {
         "technique": "Coq proof (case analysis over typed-value kinds; loop lemmas) + exhaustive-grid differential correspondence",
     },
     "C13": {
-        "text": ("48 theorems (Coq, no axioms) over a model of all of keywordsearches.py: max/min (plain and inverted) "
+        "text": ("49 theorems (Coq, no axioms) over a model of all of keywordsearches.py: max/min (plain and inverted) "
                  "select exactly the extremal members / exactly the others for lists of ints, of floats, of words "
                  "(lexicographic) -- the hypothesis 'is its own typed reading' is discharged for ints and floats and, "
                  "for text, reduced to 'ast.literal_eval rejects it' --, for any Array-of-Hashes and any "
@@ -294,7 +294,7 @@ CLAIMED = {
         "technique": "Coq proof (fuel sufficiency; loop invariant over common anchor names) + differential correspondence + dump/reload judge",
     },
     "C15": {
-        "text": ("18 theorems (Coq, no axioms) over the evaluator model with the keyword model plugged in "
+        "text": ("19 theorems (Coq, no axioms) over the evaluator model with the keyword model plugged in "
                  "(EvalKw.v): for every document, every prepared path of the fragment INCLUDING keyword-search "
                  "segments at any position, and all answering oracles, the stream of a required query, of exists() "
                  "and of an optional query ends normally or with a YAMLPathException (optional: or at the node "
@@ -310,8 +310,8 @@ CLAIMED = {
                  "repaired parser (C15_bracket_collector_refused); for paths prepared from a TEXT the fragment's "
                  "type/attribute pairing demands are theorems now (C15_prepared_in_fragment[_kw], from the parser "
                  "invariant C14_segments_paired) and C15_*_only_ype_text state the property for every text without a "
-                 "collector segment whose keyword parameter texts split (that demand is NOT a parser guarantee: "
-                 "'[max(\\')]' ends in ValueError, listed finding F31, C15_kw_params_refuted).  Tie: exhaustive small documents x paths "
+                 "collector segment (a keyword parameter text that does not split, '[max(\\')]', the former finding F31, is a "
+                 "YAMLPathException since the repair: C15_kw_params_refused; C15_kw_handler_clean holds for every parameter text).  Tie: exhaustive small documents x paths "
                  "with indexes / slice bounds negative, in range, out of range, all search forms, keyword "
                  "segments at every position, scalar collectors; required / optional / exists()."),
         "design_ref": "DESIGN.md section 4 (C15), docs/C15.md",
